@@ -106,9 +106,17 @@ func TestVerifC20Dtlsr(t *testing.T) {
 				p := &vcPeer{name: n, eid: vdEid(n)}
 				d.ReportPeerAppeared(p)
 				if st != "live" {
+					d.ReportPeerDisappeared(p)
 					d.dataMutex.Lock()
-					d.peers.Peers[vdEid(n)] = vdTime(st, now)
+					d.peers.Peers[vdEid(n)] = vdTime(st, now) // the loss is moved into the past
 					d.dataMutex.Unlock()
+				} else if idx%2 == 1 {
+					// every other case: the live neighbour was lost long ago and is back (before it was purged): live again, cost zero
+					d.ReportPeerDisappeared(p)
+					d.dataMutex.Lock()
+					d.peers.Peers[vdEid(n)] = vdTime("old", now)
+					d.dataMutex.Unlock()
+					d.ReportPeerAppeared(p)
 				}
 			}
 			k := 0
